@@ -345,7 +345,7 @@ struct E5 : Engine {
 		net_resetter.fired = &cnt["storage_connection_resets"]; if(net_server) simk::add_actor(&net_resetter);
 		struct ActorGuard { ~ActorGuard(){ simk::clear_actors(); } } actor_guard;   // the actor lives on this stack frame
 		int nb = (int)std::max<int64_t>(1,std::min<int64_t>(plan.geti("browsers",1),4));
-		std::vector<Jar> jars(nb); std::vector<MSession> ms(nb); std::set<std::string> all_sids; std::vector<std::string> dead_sids;
+		std::vector<Jar> jars(nb); std::vector<MSession> ms(nb); std::set<std::string> all_sids; std::vector<std::string> dead_sids; std::vector<size_t> sid_entropy_at;
 		int def_timeout = v.get<int>("session.timeout"); int def_how = mode_of(v.get<std::string>("session.expire")); size_t climit = (size_t)v.get<int>("session.client_size_limit");
 		auto now = []{ return simk::now_us()/1000000; };
 		const J &reqs = plan.get("reqs");
@@ -457,6 +457,13 @@ struct E5 : Engine {
 				if(srv){ n.sid = sc.substr(1); if(!SpyStorage::wellformed(n.sid)){ res.fail("malformed-session-id-issued",where + ": issued id " + wire::esc(sc)); break; }
 					if(is_new && !old_sid.empty() && n.sid == old_sid){ res.fail("session-id-not-renewed",where + ": a reset / new session kept the old identifier"); break; }
 					if(is_new && all_sids.count(n.sid)){ res.fail("session-id-reused",where + ": a fresh session got an identifier seen before"); break; }
+					// unpredictable = made of what the entropy source supplied: the 16 bytes of a fresh identifier are exactly what ONE open of /dev/urandom was served
+					// (however its reads were cut short or interrupted), and an open that no earlier identifier came from
+					if(is_new && !all_sids.count(n.sid)){ simk::TsanIgnore ign; std::string raw = unhex(n.sid); const std::vector<std::string> &opens = simk::entropy_by_open(); size_t at = std::string::npos;
+						for(size_t u=opens.size();u-->0;) if(opens[u] == raw){ at = u; break; }
+						if(at == std::string::npos){ res.fail("session-id-not-from-entropy-source",where + ": the fresh identifier " + n.sid + " is not the 16 bytes that any one read-out of /dev/urandom supplied (" + std::to_string(opens.size()) + " read-outs so far)"); break; }
+						if(std::find(sid_entropy_at.begin(),sid_entropy_at.end(),at) != sid_entropy_at.end()){ res.fail("session-id-not-from-entropy-source",where + ": the fresh identifier was made of entropy that an earlier identifier had used"); break; }
+						sid_entropy_at.push_back(at); cnt["sids_traced_to_entropy"]++; }
 					if(!live_sids.count(n.sid)){ res.fail("session-not-stored",where + ": the issued id is not in the storage"); break; } all_sids.insert(n.sid); cnt["server_side_saves"]++; }
 				else cnt["client_side_saves"]++;
 				if(!old_sid.empty() && old_sid != n.sid){ dead_sids.push_back(old_sid); if(live_sids.count(old_sid)){ res.fail(reset ? "old-id-usable-after-reset" : "old-id-left-in-storage",where + ": the previous identifier " + old_sid.substr(0,8) + ".. is still in the storage after the session " + (reset ? "was reset" : srv ? "got a new id" : "moved to the client")); break; } if(!srv) cnt["moved_server_to_client"]++; }
